@@ -19,7 +19,10 @@ MANIFEST = dict(
           "forms equal copy forms, and uncovered requests raise InvalidUnitEquivalence. Input unit scales are concrete table units; the "
           "target may be a user-defined unit whose scale is a z3 real (all positive scales at once). The same battery is re-proved "
           "after every enumerated history of 1-3 earlier requests in one process state (successful, refused and failing copying / "
-          "in-place requests, on the same and on a sibling equivalence). The dtype axis (all integer widths, float32 and float64 itself; "
+          "in-place requests, on the same and on a sibling equivalence), and across equivalences: the same (from, to) pair of dimensions is "
+          "requested through an equivalence that covers it and through one that holds `from` but not `to` (pairs read from the equivalences' "
+          "own _dims tables), in both orders in one path - the uncovered request must raise on all 8 entry points and leave its operand "
+          "untouched, the covered one must give the formula. The dtype axis (all integer widths, float32 and float64 itself; "
           "array and 0-d quantity) runs on real typed buffers with enumerated values: there only the target scale and mu, gamma are "
           "symbolic. The size axis asks whether the amount of data changes the route: symbolic payloads of 1, 2, 3, 5/17 and 2x3 "
           "elements; real float64/float32/int64 buffers of 1025, 2**16+1, 2**20+1 elements and of t, t+1 elements for every integer "
@@ -47,7 +50,14 @@ EXPLANATION = (
     "target inside convert(), source without the equivalence; failing inside the chain: unexpected keyword, read-only buffer, degC "
     "input) on the same or a sibling equivalence run in ONE path (caches and module state are reset only at path start), then the "
     "whole battery must hold as in a fresh process; refused steps must raise InvalidUnitEquivalence and leave their operand "
-    "untouched. (3) dtype: the payload is a real NumPy buffer of an integer dtype (8 widths/signs) or float32, as array and as 0-d "
+    "untouched. (2b) histories ACROSS equivalences: for every ordered pair (E1, E2) of different equivalences and every (from, to) that E1 "
+    "covers while E2 holds `from` but not `to` (enumerated at run time from the classes' own _dims tables; the independent table EQ_DIMS must "
+    "agree), one path makes the covered request through E1 (copying and in-place entries) and then the request through E2 on all 8 entry "
+    "points: each must raise InvalidUnitEquivalence (a returned None or value, or any other exception, fails) and the operand's element "
+    "terms, unit object, unit string and shape must be unchanged (copying AND in-place forms); has_equivalent(E2) stays True for the source "
+    "and False for the target. Mirrored order: the E2 requests first, then the E1 request must succeed with the closed-form value and the "
+    "requested unit (a verdict about a pair of dimensions must not outlive the equivalence it was made for). Values, mu, gamma symbolic. "
+    "(3) dtype: the payload is a real NumPy buffer of an integer dtype (8 widths/signs) or float32, as array and as 0-d "
     "quantity, with values over the decades the dtype (and its square / fourth power where the formula has one) holds exactly: the "
     "integer loops of multiply/power/reciprocal and the casts of out= buffers run as in production; copying forms are checked "
     "against the formula for all target scales and all mu, gamma, must leave dtype, bytes and unit of the input untouched; in-place "
@@ -84,6 +94,9 @@ BOUNDS = {
              "symbolic-scale target: every ordered pair x 1 input unit x 8 entry points; histories: every step kind once on the same and "
              "once on a sibling equivalence for all 9 equivalences (probed direction/units rotate), all 256 ordered pairs of step kinds for "
              "thermal and a rotating 1/16 slice of them for the other 8, 98 three-step histories (failing in-place request first) for thermal; "
+             "across equivalences: one (from, to) per ordered pair (E1, E2) that has one (25 pairs; every E1 and E2 with a shared dimension), "
+             "covered-first with one copying + one in-place E1 entry (rotating) x all 8 E2 entries, refused-first for a third of them and at "
+             "least once per E1 and per E2, scalar / 2-element payload alternating, units rotate; "
              "dtype: {int64, float64, int32, uint8, float32, uint64} x every ordered pair (int64: every unit of the cover, others rotate) x "
              "{array of <= 5 values, 0-d quantity} (int64 and float64 both, the others alternate) x 5 copying entries (table target with fixed "
              "keywords, then symbolic-scale target) and there-and-back (+ 3 in-place entries for 8-byte dtypes); "
@@ -100,7 +113,8 @@ BOUNDS = {
                 "symbolic-scale target: every ordered pair x every input unit x both shapes; histories: every step kind on same/sibling "
                 "equivalence x up to 4 ordered pairs, all 256 ordered pairs of step kinds for thermal and number_density and the 49 pairs of "
                 "the 7 core kinds for the other seven, all 343 three-step histories of the core kinds for thermal and 98 for mass_energy, "
-                "number_density; dtype: 8 integer dtypes + float32 + float64 x every ordered pair ({int64, float64, int32, uint8, float32}: every unit of "
+                "number_density; across equivalences: every (E1, E2, from, to) x both orders x scalar and 2-element payload x all 8 E1 entries x "
+                "all 8 E2 entries (units rotate); dtype: 8 integer dtypes + float32 + float64 x every ordered pair ({int64, float64, int32, uint8, float32}: every unit of "
                 "the cover, the other five rotate through it); size: symbolic-scale target x all of (3,), (2,3), (17,) [non-linear: (5,)] per "
                 "ordered pair; real buffers: every point of {float64, float32, int64} x {1025, 2**16+1, 2**20+1, t, t+1 for the source's constants} "
                 "for every ordered pair (units and shape forms rotate); lowered constants: pair battery on 3 and 2 elements, symbolic-target "
@@ -116,7 +130,9 @@ OUTSIDE = ("IEEE rounding/overflow (A1: e.g. gamma-1 underflow for v << c); the 
            "typed buffers are an enumeration over decades (a typed buffer cannot hold a term), integers whose square / fourth power "
            "overflows their dtype, in-place requests on buffers narrower than 8 bytes (they become float32/float16, whose range the "
            "constants exceed; 1-byte buffers have no float of their size), float16, complex, bool, longdouble payloads; histories longer "
-           "than 3 earlier requests or mixing more than two equivalences; state carried across processes or threads; size axis: payloads of "
+           "than 3 earlier requests or mixing more than two equivalences; cross-equivalence histories with more than one covered and one "
+           "uncovered kind of request, or whose two requests use different (from, to) pairs; number_density shares no dimension with "
+           "another equivalence, so it has no cross-equivalence case; state carried across processes or threads; size axis: payloads of "
            "more than 2**20+1 elements (2**21+1 where the source names such a constant), symbolic payloads of more than 17 elements (an object "
            "array costs about 0.1 ms per element and operation, so the numbers of the large buffers are enumerated, not symbolic: tiled decades, "
            "fixed mu/gamma, table target); size limits the library computes at run time instead of writing them down as an integer "
@@ -812,6 +828,112 @@ def make_call_history_case(eq, da, db, ua, ub, steps, shape=()):
     return Case(f"C09/after/{tag}/{eq}/{da}>{db}/{ua}>{ub}/{shape_tag(shape)}", h,
                 bounds=f"symbolic: value(s), mu, gamma of every request; {len(steps)} earlier request(s) in one history",
                 budget_s=1800 if eq in NONLINEAR else 600, weight=20 if eq == "lorentz" else (5 if eq in NONLINEAR else 1))
+
+
+# --------------------------------------------------------------------------- call histories ACROSS equivalences
+
+def lib_members(mods, eq):
+    """names of the dimensions the library's own `_dims` table of `eq` holds (read at run time)"""
+    E = mods["UE"].equivalence_registry[eq]
+    return [d for d in ALL_DIM_UNITS if any(dim_obj(mods, d) == m for m in E._dims)]
+
+
+def cross_triples(mods):
+    """(E1, E2, da, db): E1 covers da -> db, E2 holds da but NOT db - enumerated from the equivalences' own `_dims` tables; the
+    independent table EQ_DIMS must agree on both facts (it is the oracle of who covers what)"""
+    mem = {eq: lib_members(mods, eq) for eq in EQ_DIMS}
+    out = []
+    for e1, e2 in itertools.permutations(EQ_DIMS, 2):
+        for da, db in itertools.permutations(mem[e1], 2):
+            if da in mem[e2] and db not in mem[e2] and da in EQ_DIMS[e1] and db in EQ_DIMS[e1] and da in EQ_DIMS[e2] and db not in EQ_DIMS[e2]:
+                out.append((e1, e2, da, db))
+    return out
+
+
+def make_cross_case(e1, e2, da, db, ua, ub, shape, order, forms1):
+    """one path, two equivalences, the SAME (from, to) pair of dimensions: E1 covers it, E2 holds `from` but not `to`.
+    order `legit-first`: the covered request through E1 (forms1: copying and in-place entries), then the request through E2 on
+    every entry point: it must raise InvalidUnitEquivalence (never return None or a value) and leave its operand's elements and
+    unit untouched - copying AND in-place forms. order `refused-first`: the E2 requests first (same obligations), then the E1
+    request must still give the closed-form value. A verdict about a pair of dimensions must not outlive the equivalence it was
+    made for."""
+    def h(ctx):
+        mods = ctx.mods
+        K = consts(mods)
+        IUE = mods["unyt"].exceptions.InvalidUnitEquivalence
+        kw1 = kwargs_for(ctx, e1)
+        kw2 = {k: ctx.real("r_" + k, pos=True) for k in EQ_KW.get(e2, [])}
+        X1 = input_symbols(ctx, e1, da, shape, K, prefix="a")
+        n = int(np.prod(shape)) if shape else 1
+        X2 = [ctx.real(f"b_{i}", pos=True) for i in range(n)]
+        sb = float(mods["unyt"].Unit(ub).base_value)
+
+        def legit(judge):
+            for e in forms1:
+                q, xs, sa = make_quantity(ctx, X1, ua, shape)
+                r = call(run_entry, ctx, q, ub, e1, kw1, e)
+                ok = r[0] == "ok" and r[1][0] is not None and len(r[1][0]) == n
+                ctx.require(f"covered request through {e1} succeeds/{e}", ok, got=repr(r[1])[:160])
+                if not ok or not judge:
+                    continue
+                vals, u, _ = r[1]
+                mu, gamma = kw1.get("mu", 0.6), kw1.get("gamma", 5.0 / 3.0)
+                ctx.require(f"covered request through {e1} after the refused ones: formula/{e}",
+                            And(*[formula_holds(e1, da, db, x * sa, v * sb, K, mu, gamma) for x, v in zip(xs, vals)]), entry=e)
+                if u is not None:
+                    ctx.require(f"covered request through {e1}: unit/{e}", unit_is(ctx, u, ub))
+
+        def refused():
+            for e in COPY_ENTRIES + INPLACE_ENTRIES:
+                q, xs, _ = make_quantity(ctx, X2, ua, shape)
+                u0, s0 = q.units, str(q.units)
+                r = call(run_entry, ctx, q, ub, e2, kw2, e)
+                if r[0] == "ok":
+                    ctx.require(f"request {e2} does not cover raises/{e}", False, to=ub, got="returned " + ("None" if r[1][0] is None else "a value"))
+                else:
+                    ctx.require(f"request {e2} does not cover raises/{e}", isinstance(r[1], IUE), to=ub, got=type(r[1]).__name__ + ": " + str(r[1])[:120])
+                ctx.require(f"refused request leaves its operand untouched/{e}",
+                            And(all_exact(payload(q), xs), q.units is u0, str(q.units) == s0, q.shape == tuple(shape)), entry=e)
+            q, _, _ = make_quantity(ctx, X2, ua, shape)
+            ctx.require(f"has_equivalent({e2}) of the source, not of the target",
+                        q.has_equivalent(e2) is True and mods["unyt"].Unit(ub).has_equivalent(e2) is False)
+
+        if order == "legit-first":
+            legit(False)
+            refused()
+        else:
+            refused()
+            legit(True)
+
+    return Case(f"C09/cross/{order}/{e1}>{e2}/{da}>{db}/{ua}>{ub}/{shape_tag(shape)}", h,
+                bounds="symbolic: value(s), mu, gamma of every request; requests through two equivalences in one history",
+                budget_s=1800 if e1 in NONLINEAR else 600, weight=5 if e1 in NONLINEAR and order != "legit-first" else 1)
+
+
+def cross_cases(quick, mods):
+    """thorough: every (E1, E2, from, to) x both orders x both shapes, all 8 entries for the E1 request; quick: per ordered pair
+    (E1, E2) one (from, to) (rotating), legit-first with one copying + one in-place E1 entry (rotating), and the refused-first order
+    for a rotating third of them - every E2 and every E1 is met in both orders"""
+    out = []
+    seen = {}
+    for k, (e1, e2, da, db) in enumerate(cross_triples(mods)):
+        ua, ub = UNITS[da][k % len(UNITS[da])], UNITS[db][k % len(UNITS[db])]
+        if quick:
+            j = seen.get((e1, e2), 0)
+            seen[(e1, e2)] = j + 1
+            if j != 0:
+                continue
+            m = len(seen)
+            forms1 = (COPY_ENTRIES[m % len(COPY_ENTRIES)], INPLACE_ENTRIES[m % len(INPLACE_ENTRIES)])
+            out.append(make_cross_case(e1, e2, da, db, ua, ub, ((), (2,))[m % 2], "legit-first", forms1))
+            if m % 3 == 0 or ("r", e2) not in seen or ("l", e1) not in seen:
+                seen[("r", e2)] = seen[("l", e1)] = 1
+                out.append(make_cross_case(e1, e2, da, db, ua, ub, ((2,), ())[m % 2], "refused-first", forms1))
+        else:
+            for shape in ((), (2,)):
+                for order in ("legit-first", "refused-first"):
+                    out.append(make_cross_case(e1, e2, da, db, ua, ub, shape, order, tuple(COPY_ENTRIES + INPLACE_ENTRIES)))
+    return out
 
 
 # --------------------------------------------------------------------------- dtype axis: real typed buffers (integers, float32)
@@ -1527,6 +1649,8 @@ def cases(tier, mods):
                 out.append(make_history_case(eq, da, db, ua, ub, vary))
     # ---- call histories: 1, 2 and 3 earlier requests, then the whole battery
     out += history_cases(quick)
+    # ---- call histories across equivalences: the same (from, to) pair through an equivalence that covers it and one that does not
+    out += cross_cases(quick, mods)
     # ---- dtype axis
     check_names(mods, [XT])
     K = consts(mods)
